@@ -41,6 +41,7 @@ def shards(tier, seed):
         for grid in ("uniform", "log", "irregular"):
             out.append({"part": "rms", "n": n, "grid": grid})
     out.append({"part": "get_rms", "seed": seed})
+    out.append({"part": "rms_long", "seed": seed})
     out.sort(key=lambda s: -s.get("n", 0))
     return out
 
@@ -49,7 +50,7 @@ def run_shard(shard):
     import logging
     logging.disable(logging.CRITICAL)
     warnings.simplefilter("ignore")
-    return {"detrend": _detrend, "detrend_long": _detrend_long, "df": _df, "rms": _rms, "get_rms": _get_rms}[shard["part"]](shard)
+    return {"detrend": _detrend, "detrend_long": _detrend_long, "df": _df, "rms": _rms, "get_rms": _get_rms, "rms_long": _rms_long}[shard["part"]](shard)
 
 
 def replay(case):
@@ -262,6 +263,40 @@ def _rms(shard):
                     add("monotone", f"band ({lo},{hi}) inside ({lo2},{hi2}) but rms {v!r} > {v2!r}", asd)
                     break
     out["samples"].append({"grid": kind, "f": f.tolist(), "bands": len(bands), "asd vectors": 3 ** n})
+    return out
+
+
+def _rms_long(shard):
+    """Grids of realistic length (500 and 5000 points): bands over selected grid points / midpoints / infinities."""
+    from speckit.dsp import integral_rms
+
+    out = {"evals": 0, "nontrivial": 0, "failures": [], "samples": [], "extra": {}}
+    seen = set()
+    for n in (500, 5000):
+        f = np.cumsum(0.001 + 0.01 * np.abs(records.id1(n)))
+        asd = 1.0 + np.abs(records.id3(n)) * (1 + 100.0 / (1 + np.arange(n)))
+        sel = [0, 1, 2, n // 3, n // 2, n - 3, n - 2, n - 1]
+        edges = sorted({float(f[i]) for i in sel} | {float(0.5 * (f[i] + f[i + 1])) for i in sel if i + 1 < n} | {-np.inf, np.inf})
+        vals = {}
+        for lo, hi in itertools.product(edges, edges):
+            if lo > hi:
+                continue
+            out["evals"] += 1
+            out["nontrivial"] += 1
+            v = float(integral_rms(f, asd, (lo, hi)))
+            vals[(lo, hi)] = v
+            m = (f >= lo) & (f <= hi)
+            want = float(np.sqrt(np.sum(0.5 * (asd[m][1:] ** 2 + asd[m][:-1] ** 2) * np.diff(f[m])))) if m.sum() > 1 else 0.0
+            if not (abs(v - want) <= 1e-11 * (want + 1)) and "rms_long/value" not in seen:
+                seen.add("rms_long/value")
+                out["failures"].append(fw.fail("rms_long/value", f"n={n}: band ({lo},{hi}): {v!r} != trapezoid over in-band points {want!r}", dict(shard)))
+        for (lo, hi), v in vals.items():
+            for g in (float(f[i]) for i in sel):
+                if lo <= g <= hi and (lo, g) in vals and (g, hi) in vals:
+                    if not (abs(vals[(lo, g)] ** 2 + vals[(g, hi)] ** 2 - v ** 2) <= 1e-10 * (v ** 2 + 1)) and "rms_long/additive" not in seen:
+                        seen.add("rms_long/additive")
+                        out["failures"].append(fw.fail("rms_long/additive", f"n={n}: rms^2 not additive at grid point {g} in band ({lo},{hi})", dict(shard)))
+    out["samples"].append({"rms_long": [500, 5000]})
     return out
 
 
